@@ -237,6 +237,21 @@ struct gauss_seidel {
 
                     level[i] = l;
                     nlev = std::max(nlev, l+1);
+
+                    // Rows that are swept after this one, but whose unknowns
+                    // are read here, have to wait for the current row: the
+                    // serial sweep uses their old values.
+                    for(auto a = row_begin(A, i); a; ++a) {
+                        ptrdiff_t c = a.col();
+
+                        if (forward) {
+                            if (c <= i) continue;
+                        } else {
+                            if (c >= i) continue;
+                        }
+
+                        level[c] = std::max(level[c], l+1);
+                    }
                 }
 
 
